@@ -31,6 +31,11 @@ class World(object):
         self.app, self.wire, self.problems = [], [], []
         self.ticks = 0
         self.pings = []          # ids of ping stanzas seen by the server, in order
+        self.behind_hello = None
+        self.behind_hello_used = False
+        self.same_server = False
+        self.raise_on_pong = False
+        self.srv_static = None
         self.nevent = 0
         try:
             EV = {YowNetworkLayer.EVENT_STATE_CONNECTED: "connected", YowNetworkLayer.EVENT_STATE_DISCONNECTED: "disconnected",
@@ -52,6 +57,8 @@ class World(object):
                         w.app.append("streamerror:%s" % entity.getErrorType())
                     elif tag == "iq":
                         w.app.append("pong")
+                        if w.raise_on_pong:
+                            raise RuntimeError("application callback raising for a pong")
                     else:
                         w.app.append(tag)
             core_layers = YowStackBuilder.getCoreLayers()
@@ -136,6 +143,14 @@ class World(object):
             if not getattr(self.srv, "hs_logged", False):
                 self.srv.hs_logged = True
                 self.wire.append(("handshake", d.idx, True))
+        if replies and self.behind_hello is not None and self.srv.state == "transport":
+            # the server's first stanza travels in the same chunk as its handshake reply (possible once the client logs in with the
+            # cached server key: the server is in transport state right after its hello)
+            node, self.behind_hello = self.behind_hello, None
+            from yowsup.layers.coder.encoder import WriteEncoder
+            from yowsup.layers.coder.tokendictionary import TokenDictionary as TD
+            replies[-1] = replies[-1] + self.srv.send(bytes(bytearray(WriteEncoder(TD()).protocolTreeNodeToBytes(node))))
+            self.behind_hello_used = True
         self.pending += replies
         for pt in self.srv.received[before:]:
             try:
@@ -178,12 +193,15 @@ class World(object):
             elif name == "DispatcherConnected":
                 d = self.dispatchers[-1]
                 d.open = True
-                self.srv = NoiseServer()
+                # same_server: the server keeps its static key, so that a later login with the cached key is an IK handshake
+                # (otherwise every reconnect falls back to XX, as against a server whose key was rotated)
+                self.srv = NoiseServer(static=self.srv_static) if (self.same_server and self.srv_static is not None) else NoiseServer()
+                self.srv_static = self.srv.static
+                if act.get("then") is not None:
+                    self.behind_hello = self.first_stanza(act["then"])
                 self.net.onConnected()
-            elif name == "Success":
-                self.server_stanza(ProtocolTreeNode("success", {"t": "1600000000", "props": "2", "location": "atn", "creation": "1500000000"}))
-            elif name == "Failure":
-                self.server_stanza(ProtocolTreeNode("failure", {"reason": "not-authorized"}))
+            elif name in ("Success", "Failure"):
+                self.server_stanza(self.first_stanza(name))
             elif name == "StreamError":
                 kids = [ProtocolTreeNode(act["kind"])]
                 if act["kind"] == "conflict":
@@ -215,6 +233,16 @@ class World(object):
         if t.error is not None:
             self.problems.append(("event-raised:%s" % name, "%s raised %r" % (name, t.error)))
 
+    @staticmethod
+    def first_stanza(name):
+        from yowsup.structs import ProtocolTreeNode
+        if name == "Success":
+            return ProtocolTreeNode("success", {"t": "1600000000", "props": "2", "location": "atn", "creation": "1500000000"})
+        return ProtocolTreeNode("failure", {"reason": "not-authorized"})
+
+    def cached_key(self):
+        return self.profile.config.server_static_public is not None
+
     def start(self):
         self.closing = False
         self.s.spawn("pump", self.pump)
@@ -236,16 +264,34 @@ class World(object):
             self.inst.undo()
 
 
-def replay_path(run, g, path, ropt, popt, label):
+def replay_path(run, g, path, ropt, popt, label, variant=False):
     w = World(ropt, popt)
+    w.same_server = variant
     try:
         w.start()
         init, steps = g.path_steps(path)
         trail = []
-        for act, to in steps:
+        skip = False
+        for si, (act, to) in enumerate(steps):
+            if skip:
+                skip = False
+                continue
+            act = dict(act)
+            if (act["name"] == "DispatcherConnected" and variant and w.cached_key() and si + 1 < len(steps)
+                    and steps[si + 1][0]["name"] in ("Success", "Failure")):
+                # variant: the server's reply to the login travels right behind its handshake message, in one chunk
+                act["then"] = steps[si + 1][0]["name"]
             trail.append({k: v for k, v in act.items()})
             try:
                 w.do(act)
+                if act.get("then") and w.behind_hello_used:
+                    w.behind_hello_used = False
+                    run.notes["reply_behind_hello_cases"] = run.notes.get("reply_behind_hello_cases", 0) + 1
+                    trail.append(dict(steps[si + 1][0], behind_hello=True))
+                    to = steps[si + 1][1]
+                    skip = True
+                elif act.get("then"):
+                    w.behind_hello = None
             except sched.Deadlock as e:
                 run.violation("hang:%s" % act["name"], "%s: %s after %s" % (label, e, trail), {"trail": trail})
                 return False
@@ -313,7 +359,7 @@ def run():
             if len(paths) > budget:
                 paths = rng.sample(paths, budget)
             for pi, p in enumerate(paths):
-                replay_path(r, g, p, ropt, popt, "reconnect=%s keepalive=%s" % (ropt, popt))
+                replay_path(r, g, p, ropt, popt, "reconnect=%s keepalive=%s" % (ropt, popt), variant=(pi % 2 == 1))
                 r.case((tag, tuple(p)))
                 r.cov["traces_validated_against_impl"] += 1
                 if pi == 0 and ropt and popt:
